@@ -56,6 +56,7 @@ void verif_sched_main(void)
         ++verif_steps;
         for (uint32_t k = 0; k < VERIF_NT; ++k) {          /* the thread index is concrete inside each arm, so frame accesses are constant-indexed */
             if (t != k) continue;
+            if (!verif_enabled(k)) continue;      /* lets symbolic execution prune arms of threads that cannot run (e.g. not yet spawned) */
             verif_cur = k;
             int done;
             if (k == 0) done = verif_main_step();
